@@ -29,7 +29,10 @@ def main():
                 rc, out = sh('cargo build --offline --features verif-hooks 2>&1 | tail -3')
                 res['builds_with_hooks'] = rc == 0 and 'error' not in out
                 shs = [f for f in demos if f.endswith('.sh')]
-                feat = ' --features verif-hooks' if 'features verif-hooks --test' in open(d + '/notes.md').read() else ''
+                notes_txt = open(d + '/notes.md').read()
+                demo_txt = ''.join(open(f).read() for f in rs)
+                feat = ' --features verif-hooks' if ('features verif-hooks --test' in notes_txt or (
+                    'verif-hooks' in notes_txt and ('GenerationSource' in demo_txt or 'verif::' in demo_txt) and 'cfg(feature' not in demo_txt)) else ''
                 if shs:
                     # script-driven demo: expects itself under <worktree>/out/
                     os.makedirs(WT + '/out', exist_ok=True)
